@@ -32,7 +32,7 @@ fn meta() -> Meta {
     Meta {
         id: "C06",
         level: "model_checking",
-        rule: "every sequence of runs up to the depth bound, each run = (append on/off) x (clock +0 s | +1 s before the start) x shape in {no write, W, WWW (criterion rotates once), W R W}, for every configuration (naming x cleanup incl. compression, two file-name shapes, non-rotating file); states = distinct canonical directories (names with instants relative to the clock, sizes) reached, transitions = runs executed; non-trivial = sequence with >= 2 runs that wrote records; plus configurations starting from a directory that already holds app_r99998.log (numbering passes five digits); plus configurations starting from app_r00001.log, app_r00002.log.gz, app_r00003.log.gz (a plain file older than compressed ones)",
+        rule: "every sequence of runs up to the depth bound, each run = (append on/off) x (clock +0 s | +1 s before the start) x shape in {no write, W, WWW (criterion rotates once), W R W}, for every configuration (naming x cleanup incl. compression, two file-name shapes, non-rotating file); states = distinct canonical directories (names with instants relative to the clock, sizes) reached, transitions = runs executed; non-trivial = sequence with >= 2 runs that wrote records; plus configurations starting from a directory that already holds app_r99998.log (numbering passes five digits); plus configurations starting from app_r00001.log, app_r00002.log.gz, app_r00003.log.gz (a plain file older than compressed ones); with append the first record of a run follows the previous run's last record in the same file unless that file was over the size limit; configurations with suffix err.log, with a basename containing a dot and no suffix, and with a limit of one file for the direct timestamp namings",
         assumptions: vec![
             "size limit 15 with 10-byte lines; cleanup runs synchronously; direct write mode".into(),
             "names that were removed by the cleanup limit may be used again (the property speaks of names that exist)".into(),
